@@ -119,11 +119,12 @@ func (w *c19World) ballastGauge(denom string, amt int64) {
 	w.createGauge(c19GaugeSpec{creator: 55, denom: denom, deposit: sdk.NewInt(amt), total: 10, start: w.ctx.BlockTime().Add(100000 * time.Hour), dur: 24 * time.Hour, pool: 1, typeID: rewardstypes.LiquidityGaugeTypeID})
 }
 
-// S1 (finding): a swap-fee gauge pays the same deposit again every epoch.  Pool 1 collects fees (uasset1), its gauge is
+// S1 (regression; finding D44 repaired in the repository by b0fa4d4): before the fix a swap-fee gauge paid the same deposit
+// again every epoch.  Pool 1 collects fees (uasset1), its gauge is
 // funded at an epoch; then a second (ranged) pool is created on the pair and the oracle price of the other side goes away:
 // the distribution to the farmers still works (one price suffices), `TransferFundsForSwapFeeDistribution` fails (it wants
-// both), and the loop `continue`s before `SetGauge`.  Every following epoch pays the deposit again — out of the coins of an
-// ordinary gauge in the same account.
+// both), and the loop used to `continue` before `SetGauge`, so every following epoch paid the deposit again — out of the coins
+// of an ordinary gauge in the same account.  Now the payment is booked at once; `sf_leak` / `custody_sf_leak` must stay silent.
 func c19WitnessSfLeak(t *testing.T, tr *Trace) {
 	w := c19NewWorldOpt(t, tr, 100000000, 1000000, [4]uint64{1000000, 1000000, 1000000, 1000000}, "uasset1")
 	f := w.acct(1)
@@ -138,9 +139,9 @@ func c19WitnessSfLeak(t *testing.T, tr *Trace) {
 	w.block(25 * time.Hour) // the gauge is funded from the fee collector
 	w.rangedPool(0, 100000000)
 	w.setPrice(2, 0, false)
-	w.block(25 * time.Hour) // paid, not booked
-	w.block(25 * time.Hour) // paid again
-	w.block(25 * time.Hour) // and again
+	w.block(25 * time.Hour) // paid and (since the fix) booked although the transfer fails
+	w.block(25 * time.Hour) // nothing left to pay
+	w.block(25 * time.Hour)
 	w.setPrice(2, 1000000, true)
 	w.block(25 * time.Hour) // with both prices back the epoch is booked
 	w.block(25 * time.Hour)
